@@ -46,6 +46,7 @@ Definition not_panic (o : obs) : bool := match o with OPanic => false | _ => tru
    da_lookup_refines_fuel *)
 Definition fuel_for (pats : list (bytes * nat)) : nat := S (pdepth (model_trie pats)).
 
+(* the domain test of the tab and look cases is wf_patset_sc = wf_patset (C05_check_shortcuts_wf) *)
 (* per-table precomputation: check_case computes the static records, the model trie and the tokenised
    table once per case and uses the _pre variants of Model/DencoDA.v (equal to router_lookup,
    da_router_lookup and answer_ok: C05_check_shortcuts) *)
@@ -59,7 +60,7 @@ Definition lookup_prop_pre (ents : list (shape * (nat * list bytes))) (l : bytes
 Definition check_case (c : case) : N :=
   match c with
   | CTab pats builderr cells nds ls =>
-    if wf_patset pats then
+    if wf_patset_sc pats then
       let d := mkDA cells nds in
       let fu := fuel_for pats in
       let st := statics_of pats in
@@ -76,7 +77,7 @@ Definition check_case (c : case) : N :=
          shape, duplicate names): only the panic clause is evaluated, when Build accepted the table *)
       verdict true (builderr || forallb (fun l => not_panic (snd l)) ls)
   | CLook pats builderr ls =>
-    if wf_patset pats then
+    if wf_patset_sc pats then
       let st := statics_of pats in
       let t := model_trie pats in
       let ents := entries_of pats in
